@@ -1,4 +1,6 @@
 SPECIFICATION TraceSpec
-CONSTANT LegacyImsaak = FALSE
+CONSTANTS
+  LegacyImsaak = FALSE
+  LegacyImsaakFlag = FALSE
 POSTCONDITION TraceAccepted
 CHECK_DEADLOCK FALSE
